@@ -8,7 +8,19 @@ them.  Every reported figure is recomputed from the raw outcome:
   (``fractions.Fraction``; the pseudo-inverse through a full-rank factorisation, no SVD, no cut-off),
 * the figures derived from a matrix (standard errors, t, p, correlations, pairwise tests) from the matrix
   the library itself reports, with scipy.special.erfc for the normal tail,
-* compiled tables cell by cell from the label of the row, likelihood-ratio tests with scipy.special.chdtri.
+* compiled tables cell by cell from the label of the row and the model of the column, likelihood-ratio tests
+  with scipy.special.chdtri.
+
+Compiled tables (``compile_estimation_results``: "dict of results, containing for each model the name ... and
+the results, or the name of the pickle file containing them"; ``compile_results_in_directory``: "results found
+in the local directory ... in a file with pickle extension"): the models are given as ``bioResults`` objects,
+as names (relative or absolute) of the files written by ``write_pickle``, or a mix, in any order, and entries
+that do not lead to results (missing file, empty file, bytes that are no pickle stream, truncated results file,
+pickle of another object, directory) stand at generated positions.  For such an entry the function logs
+'Impossible to access result file' and goes on; its column (the columns are the keys of the dictionary)
+must hold the empty string in every row, exactly as the cell of a parameter that a model does not have.  All
+files live in a private temporary directory (the case runs in a forked child that changes into it) which the
+parent removes.
 
 Tolerances (all stated here):
 
@@ -29,7 +41,11 @@ from __future__ import annotations
 
 import datetime
 import math
+import os
+import pickle
 import re
+import shutil
+import tempfile
 import types
 from fractions import Fraction as Fr
 
@@ -37,6 +53,7 @@ import numpy as np
 from hypothesis import strategies as st
 from scipy.special import chdtri, erfc
 
+from .. import isolate
 from ..runner import Outcome, SubCheck
 
 PROPERTY = 'C08'
@@ -52,6 +69,11 @@ ASSUMPTIONS = [
     'figures derived from a matrix are compared with the matrix the library reports (itself compared with the '
     'exact one), so that conditioning does not enter their tolerance',
     'zero-variance conventions (sentinel values) are outside the property and not judged',
+    'compiled tables: a results file is the file written by bioResults.write_pickle; an entry without result is '
+    'a name for which bioResults(pickle_file=name) raises (missing, empty, not a pickle stream, truncated, '
+    'pickle of a non-None object that is no RawResults, directory); a pickle file holding None is outside the '
+    'generated domain (bioResults documents data=None as "no data provided" and the compilation then raises '
+    'AttributeError); the figures of a model read from a file are those of the bioResults object that wrote it',
 ]
 BUDGETS = dict(quick=dict(shards=8), thorough=dict(shards=16))
 
@@ -840,21 +862,88 @@ NULL_STATISTICS = ['Null log likelihood', 'Likelihood ratio test for the null mo
                    'Rho-square for the null model', 'Rho-square-bar for the null model']
 
 
-def judge_compile(spec) -> Outcome:
+# Forms of one entry of the dictionary given to compile_estimation_results ("for each model the name ... and
+# the results, or the name of the pickle file containing them"):
+RESULT_KINDS = ('object', 'pickle')  # a bioResults object / the name of the file written by write_pickle
+# ... and names that do not lead to estimation results. The function logs 'Impossible to access result file'
+# and goes on to the next model; the column of such a model exists (columns are the keys of the dictionary)
+# and holds nothing (the table is returned through fillna('')):
+NO_RESULT_KINDS = ('missing', 'garbage', 'empty', 'truncated', 'foreign', 'dataframe', 'directory')
+
+
+def compile_entries(spec):
+    """The entries of the dictionary, in order. Specs written before entries existed give every model as
+    a bioResults object."""
+    if spec.get('entries') is not None:
+        return [dict(e) for e in spec['entries']]
+    return [dict(key=k, kind='object', model=i) for i, k in enumerate(spec['keys'][: len(spec['models'])])]
+
+
+def _write_no_result_file(entry, name, built):
+    """A file (or directory) named `name` that does not hold estimation results."""
+    import pandas as pd
+
+    kind = entry['kind']
+    if kind == 'missing':
+        return
+    if kind == 'directory':
+        os.mkdir(name)
+        return
+    if kind == 'garbage':
+        data = entry['content'].encode('utf-8')
+    elif kind == 'empty':
+        data = b''
+    elif kind == 'truncated':
+        # a strict prefix of a genuine results file: the final STOP opcode is never reached
+        full = pickle.dumps(built[entry['model']].data)
+        data = full[: (len(full) - 1) * entry['content'] // 1000]
+    elif kind == 'foreign':
+        data = pickle.dumps(entry['content'])
+    elif kind == 'dataframe':
+        data = pickle.dumps(pd.DataFrame(entry['content']))
+    else:
+        raise ValueError(f'unknown kind of entry {kind!r}')
+    with open(name, 'wb') as f:
+        f.write(data)
+
+
+def _compile_case(spec, workdir) -> Outcome:
+    """Runs in a forked child, inside the private directory `workdir` (created and removed by the parent)."""
     out = Outcome()
+    os.chdir(workdir)
     results, _, BiogemeError, _ = _lib()
     models = spec['models']
-    keys = spec['keys'][: len(models)]
+    entries = compile_entries(spec)
     flags = spec['flags']
+    via_directory = bool(spec.get('via_directory'))
     oracles = [Oracle(m) for m in models]
-    if not all(o.domain_ok for o in oracles):
-        out.skipped = 'Hessian outside the domain'
-        return out
-    out.nontrivial = len(models) >= 2
-    out.classes += [f'models={len(models)}', 'formatted' if flags['formatted'] else 'unformatted',
+    with_result = [e for e in entries if e['kind'] in RESULT_KINDS]
+    without = [e for e in entries if e['kind'] not in RESULT_KINDS]
+    out.nontrivial = len(entries) >= 2 and len(with_result) >= 1
+    forms = {e['kind'] for e in with_result}
+    out.classes += [f'models={len(models)}', f'entries={len(entries)}',
+                    'formatted' if flags['formatted'] else 'unformatted',
                     f"std={int(flags['stderr'])},ttest={int(flags['ttest'])}",
-                    'short_names' if flags['short_names'] else 'long_names',
-                    'statistics=default' if spec['statistics'] is None else 'statistics=chosen']
+                    'short_names' if flags['short_names'] and not via_directory else 'long_names',
+                    'statistics=default' if spec['statistics'] is None else 'statistics=chosen',
+                    'given_as=' + ('nothing_readable' if not forms else 'mixed' if len(forms) > 1 else min(forms)),
+                    f'entries_without_result={len(without)}']
+    out.classes += sorted({'without_result:' + e['kind'] for e in without})
+    if any(e.get('abs') for e in entries if e['kind'] != 'object'):
+        out.classes.append('absolute_file_name')
+    if via_directory:
+        out.classes.append('compile_results_in_directory')
+    seen_result = False
+    for pos, e in enumerate(entries):
+        if e['kind'] in RESULT_KINDS:
+            seen_result = True
+        else:
+            out.classes.append('without_result_after_result' if seen_result else 'without_result_before_any_result')
+            if any(x['kind'] in RESULT_KINDS for x in entries[pos + 1:]):
+                out.classes.append('without_result_before_result')
+    used = [e['model'] for e in with_result]
+    if len(set(used)) < len(used):
+        out.classes.append('one_model_under_several_names')
     if not flags['estimates']:
         out.classes.append('no_estimates')
     built = []
@@ -863,72 +952,128 @@ def judge_compile(spec) -> Outcome:
         if r is None:
             return out
         built.append(r)
-    all_names = [n for m in models for n in m['names']]
+    used_models = [models[i] for i in sorted(set(used))]
+    all_names = [n for m in used_models for n in m['names']]
     if len(set(all_names)) < len(all_names):
         out.classes.append('shared_parameter_names')
-    if len(set(tuple(m['names']) for m in models)) > 1:
+    if len(set(tuple(m['names']) for m in used_models)) > 1:
         out.classes.append('different_parameter_sets')
-    statistics = DEFAULT_STATISTICS if spec['statistics'] is None else list(spec['statistics'])
-    # only statistics that every model reports are in the domain of the call
-    statistics = [s for s in statistics if all(s in o.stats for o in oracles)]
-    kwargs = dict(include_parameter_estimates=flags['estimates'], include_robust_stderr=flags['stderr'],
-                  include_robust_ttest=flags['ttest'], formatted=flags['formatted'],
-                  use_short_names=flags['short_names'])
-    if spec['statistics'] is not None:
-        kwargs['statistics'] = tuple(statistics)
-    fl = 'formatted' if flags['formatted'] else 'unformatted'
-    try:
-        frame, config = results.compile_estimation_results(dict(zip(keys, built)), **kwargs)
-    except Exception as e:  # noqa
-        out.fail(f'compile:{fl}:raises:{type(e).__name__}',
-                 f'compile_estimation_results({kwargs}) raised {type(e).__name__}: {str(e)[:200]}')
-        return out
-    cols = [f'Model_{i:06d}' for i in range(len(keys))] if flags['short_names'] else list(keys)
-    if list(frame.columns) != cols:
-        out.fail('compile:columns', f'columns {list(frame.columns)}, expected {cols}')
-        return out
-    if dict(config) != dict(zip(cols, keys)):
-        out.fail('compile:configurations', f'configurations {config}, expected {dict(zip(cols, keys))}')
-    # expected content: label -> {column: (kind, value)}
-    expected = {}
-    # statistic rows: the statistic of that model, as checked against its defining formula (general:*)
+    # the files: first those without results, then the results files under the name write_pickle chooses
+    # (it never overwrites an existing file)
+    given = []  # what the dictionary holds for each entry
+    for e in entries:
+        if e['kind'] in RESULT_KINDS:
+            given.append(None)
+            continue
+        _write_no_result_file(e, e['file'], built)
+        given.append(os.path.join(workdir, e['file']) if e.get('abs') else e['file'])
+    for pos, e in enumerate(entries):
+        if e['kind'] == 'object':
+            given[pos] = built[e['model']]
+        elif e['kind'] == 'pickle':
+            try:
+                name = built[e['model']].write_pickle()
+            except Exception as ex:  # noqa
+                out.fail(f'compile:write_pickle:raises:{type(ex).__name__}', f'write_pickle raised {ex!r}')
+                return out
+            given[pos] = os.path.join(workdir, name) if e.get('abs') else name
+    # the statistics of each model, as checked against their defining formulas (general:*)
     model_stats = []
     for r, o in zip(built, oracles):
         g = check_general_statistics(out, r, o)
         if g is None:
             return out
         model_stats.append(g)
-    statistics = [s for s in statistics if all(s in g for g in model_stats)]
-    for s in statistics:
-        expected[s] = {c: ('stat', g[s][0]) for c, g in zip(cols, model_stats)}
-    if flags['estimates']:
-        for c, r, o in zip(cols, built, oracles):
-            for i, b in enumerate(r.data.betas):
-                se, t = b.robust_stdErr, b.robust_tTest
-                if flags['formatted']:
-                    title = b.name + (' (std)' if flags['stderr'] else '') + (' (t-test)' if flags['ttest'] else '')
-                    tokens = [f'{o.values[i]:.3g}']
-                    if flags['stderr']:
-                        tokens.append(f'({se:.3g})')
-                    if flags['ttest']:
-                        tokens.append(f'({t:.3g})')
-                    expected.setdefault(title, {})[c] = ('tokens', tokens)
-                else:
-                    expected.setdefault(b.name, {})[c] = ('value_row', o.values[i])
-                    if flags['stderr']:
-                        expected.setdefault(f'{b.name} (std)', {})[c] = ('std_row', se)
-                    if flags['ttest']:
-                        expected.setdefault(f'{b.name} (ttest)', {})[c] = ('ttest_row', t)
-    if sorted(frame.index) != sorted(expected):
-        out.fail(f'compile:{fl}:rows', f'rows {list(frame.index)}, expected {list(expected)}')
+    statistics = DEFAULT_STATISTICS if spec['statistics'] is None else list(spec['statistics'])
+    # only statistics that every model with a result reports are in the domain of the call
+    statistics = [s for s in statistics
+                  if all(s in oracles[i].stats and s in model_stats[i] for i in set(used))]
+    kwargs = dict(include_parameter_estimates=flags['estimates'], include_robust_stderr=flags['stderr'],
+                  include_robust_ttest=flags['ttest'], formatted=flags['formatted'])
+    if not via_directory:
+        kwargs['use_short_names'] = flags['short_names']
+    if spec['statistics'] is not None:
+        kwargs['statistics'] = tuple(statistics)
+    fl = 'formatted' if flags['formatted'] else 'unformatted'
+    if via_directory:
+        # every entry is a file of the directory; the name of the file is the name of the model
+        keys = [g for g in given]
+        call = 'compile_results_in_directory'
+    else:
+        keys = [e['key'] for e in entries]
+        call = 'compile_estimation_results'
+    try:
+        if via_directory:
+            answer = results.compile_results_in_directory(**kwargs)
+        else:
+            answer = results.compile_estimation_results(dict(zip(keys, given)), **kwargs)
+        frame, config = answer
+    except Exception as e:  # noqa
+        out.fail(f'compile:{fl}:raises:{type(e).__name__}',
+                 f'{call}({kwargs}) raised {type(e).__name__}: {str(e)[:200]} '
+                 f'(entries {[x["kind"] for x in entries]})')
         return out
-    for label, per_col in expected.items():
-        for c in cols:
+    if via_directory:
+        cols = list(keys)
+        if sorted(frame.columns) != sorted(cols):
+            out.fail('compile:columns', f'columns {list(frame.columns)}, the directory holds {sorted(cols)}')
+            return out
+    else:
+        cols = [f'Model_{i:06d}' for i in range(len(keys))] if flags['short_names'] else list(keys)
+        if list(frame.columns) != cols:
+            out.fail('compile:columns', f'columns {list(frame.columns)}, expected {cols}')
+            return out
+    if dict(config) != dict(zip(cols, keys)):
+        out.fail('compile:configurations', f'configurations {config}, expected {dict(zip(cols, keys))}')
+    # expected content, column by column, from the raw outcome of the model of THAT column:
+    # label -> {column: (kind, value)}; a column of an entry without result expects nothing
+    expected = {}
+    for s in statistics:
+        expected[s] = {}
+    for c, e in zip(cols, entries):
+        if e['kind'] not in RESULT_KINDS:
+            continue
+        r, o, g = built[e['model']], oracles[e['model']], model_stats[e['model']]
+        for s in statistics:
+            expected[s][c] = ('stat', g[s][0])
+        if not flags['estimates']:
+            continue
+        for i, b in enumerate(r.data.betas):
+            se, t = b.robust_stdErr, b.robust_tTest
+            if flags['formatted']:
+                title = b.name + (' (std)' if flags['stderr'] else '') + (' (t-test)' if flags['ttest'] else '')
+                tokens = [f'{o.values[i]:.3g}']
+                if flags['stderr']:
+                    tokens.append(f'({se:.3g})')
+                if flags['ttest']:
+                    tokens.append(f'({t:.3g})')
+                expected.setdefault(title, {})[c] = ('tokens', tokens)
+            else:
+                expected.setdefault(b.name, {})[c] = ('value_row', o.values[i])
+                if flags['stderr']:
+                    expected.setdefault(f'{b.name} (std)', {})[c] = ('std_row', se)
+                if flags['ttest']:
+                    expected.setdefault(f'{b.name} (ttest)', {})[c] = ('ttest_row', t)
+    if not with_result:
+        expected = {}  # no model contributes a row
+    if sorted(frame.index) != sorted(expected):
+        out.fail(f'compile:{fl}:rows', f'rows {list(frame.index)}, expected {list(expected)} '
+                                       f'(entries {[x["kind"] for x in entries]})')
+        return out
+    for c, e in zip(cols, entries):
+        has_result = e['kind'] in RESULT_KINDS
+        for label, per_col in expected.items():
             got = frame.at[label, c]
             if c not in per_col:
                 if not (isinstance(got, str) and got == ''):
-                    out.fail(f'compile:{fl}:absent_parameter',
-                             f'[{label!r}, {c!r}] = {got!r} although the model has no such parameter')
+                    if has_result:
+                        out.fail(f'compile:{fl}:absent_parameter',
+                                 f'[{label!r}, {c!r}] = {got!r} although the model has no such parameter')
+                    else:
+                        out.fail(f'compile:{fl}:entry_without_result',
+                                 f'[{label!r}, {c!r}] = {got!r} although no estimation results can be read for '
+                                 f'that model (entry {entries.index(e)} of {[x["kind"] for x in entries]} is '
+                                 f'{e["kind"]})')
                 continue
             kind, want = per_col[c]
             if kind == 'stat':
@@ -975,6 +1120,49 @@ def judge_compile(spec) -> Outcome:
             compare_lr(out, 'lrtest', verdict, got, exc,
                        f'bioResults.likelihood_ratio_test: self ({la!r}, {a.k}) vs other ({lb!r}, {b.k})')
     return out
+
+
+_WARM_MODEL = dict(
+    names=['ASC_CAR', 'B_TIME'], values=[0.5, -1.25], bounds=[[None, None], [-10.0, None]], sample_size=100,
+    observations=100, excluded=0, loglike=-60.0, init_loglike=-69.0, null_loglike=-70.0,
+    hessian_kind='negative_definite', hessian=[[-4.0, 1.0], [1.0, -3.0]], bhhh_kind='gram',
+    bhhh=[[3.0, 0.5], [0.5, 2.0]], bootstrap=None, bootstrap_seconds=0, gradient=[1e-4, -2e-4], threads=1)
+_warm = []
+
+
+def _warm_up():
+    """Once per process: the library is imported and run on a fixed model in the parent (pure Python, no file,
+    no change of directory), so that the forked children pay neither the import nor the first-call set-up."""
+    if _warm:
+        return
+    _warm.append(True)
+    results = _lib()[0]
+    try:
+        res = build_results(_WARM_MODEL)
+        pickle.dumps(res.data)
+        for formatted in (True, False):
+            results.compile_estimation_results({'a': res, 'b': res}, include_robust_stderr=True, formatted=formatted)
+    except Exception:  # noqa: not a verdict; the generated cases judge the library
+        pass
+
+
+def judge_compile(spec) -> Outcome:
+    if not all(Oracle(m).domain_ok for m in spec['models']):
+        out = Outcome()
+        out.skipped = 'Hessian outside the domain'
+        return out
+    _warm_up()
+    workdir = tempfile.mkdtemp(prefix='verif_c08_')
+    try:
+        res = isolate.call(_compile_case, spec, workdir)
+    finally:
+        shutil.rmtree(workdir, ignore_errors=True)
+    if not res['ok']:
+        out = Outcome()
+        out.fail(f'compile:child:{res["exc_type"]}',
+                 f'the case did not complete: {res["exc_module"]}.{res["exc_type"]}: {str(res["exc_msg"])[:300]}')
+        return out
+    return res['value']
 
 
 # ---------------------------------------------------------------------------------------------
@@ -1188,11 +1376,75 @@ _KEY_POOL = ['logit', 'nested', 'cnl', 'model with spaces', 'Model_000001', 'Mod
              'asc:alt1;b_time:generic']
 
 
+_MODEL_NAME_POOL = ['synthetic', 'logit', 'logit', 'nested model', 'm.01', 'b_time_generic']
+_FILE_STEM_POOL = ['logit', 'broken', 'other', 'my data', 'synthetic', 'results.v2', 'zz']
+_FOREIGN = st.one_of(
+    st.integers(-5, 5), st.floats(-2, 2), st.sampled_from(['', 'logit.pickle', 'some text']), st.booleans(),
+    st.lists(st.integers(0, 9), max_size=3),
+    st.dictionaries(st.sampled_from(['a', 'betas', 'nparam', 'logLike']), st.integers(-3, 3), max_size=3))
+
+
+@st.composite
+def _entry_without_result(draw, stem, n_models, via_directory):
+    """An entry of the dictionary that names something which is not a readable results file."""
+    kinds = [k for k in NO_RESULT_KINDS if not (via_directory and k == 'missing')]
+    kind = draw(st.sampled_from(kinds))
+    entry = dict(kind=kind, model=None, abs=False if via_directory else draw(st.sampled_from([False, False, True])))
+    if kind == 'missing':
+        # names that no generated file can have
+        entry['file'] = draw(st.sampled_from(['absent.pickle', 'no_such_directory/logit.pickle', 'absent',
+                                              'absent.html']))
+        if entry['file'] == 'absent' and draw(st.booleans()):
+            entry['file'] = ''
+            entry['abs'] = False
+    else:
+        # (write_pickle does not step aside for a directory: keep such names apart from the model names)
+        entry['file'] = stem + ('.d.pickle' if kind == 'directory' else '.pickle')
+    if kind == 'garbage':
+        # bytes that are not a pickle stream (no text here can be read as one: the alphabet has no opcode)
+        entry['content'] = draw(st.one_of(st.sampled_from(['this is not a pickle file', '<html></html>', '0', '.']),
+                                          st.text(alphabet='xyz<> \n', min_size=1, max_size=12)))
+    elif kind == 'truncated':
+        entry['model'] = draw(st.integers(0, n_models - 1))
+        entry['content'] = draw(st.integers(0, 1000))  # thousandths of the genuine file that are kept
+    elif kind == 'foreign':
+        entry['content'] = draw(_FOREIGN)
+    elif kind == 'dataframe':
+        entry['content'] = {'Value': draw(st.lists(st.floats(-2, 2), min_size=1, max_size=3))}
+    return entry
+
+
 @st.composite
 def strat_compile(draw, tier):
     n = draw(st.integers(1, 3))
     models = [draw(model_specs(kmax=4, with_bootstrap=False, names_pool=_COMPILE_POOL)) for _ in range(n)]
-    keys = draw(st.lists(st.sampled_from(_KEY_POOL), min_size=3, max_size=3, unique=True))
+    for m in models:
+        m['model_name'] = draw(st.sampled_from(_MODEL_NAME_POOL))
+    via_directory = draw(st.sampled_from(range(8))) == 7
+    # how the models are given: all as objects, all as files, or each one in its own way
+    how = 'pickle' if via_directory else draw(st.sampled_from(['object', 'object', 'pickle', 'mixed', 'mixed']))
+    entries = []
+    for i in range(n):
+        kind = how if how != 'mixed' else draw(st.sampled_from(RESULT_KINDS))
+        entries.append(dict(kind=kind, model=i))
+    if draw(st.sampled_from(range(6))) == 5:
+        # one more name for one of the models, in any form
+        entries.append(dict(kind='pickle' if via_directory else draw(st.sampled_from(RESULT_KINDS)),
+                            model=draw(st.integers(0, n - 1))))
+    entries = draw(st.permutations(entries))
+    for e in entries:
+        e['abs'] = False if (via_directory or e['kind'] == 'object') else draw(st.sampled_from([False, False, True]))
+    # entries without result, each at a generated position
+    n_without = draw(st.sampled_from([0, 0, 0, 1, 1, 1, 2, 3]))
+    stems = draw(st.lists(st.sampled_from(_FILE_STEM_POOL), min_size=n_without, max_size=n_without, unique=True))
+    for stem in stems:
+        entry = draw(_entry_without_result(stem, n, via_directory))
+        entries.insert(draw(st.integers(0, len(entries))), entry)
+    if n_without and draw(st.sampled_from(range(12))) == 11:
+        entries = [e for e in entries if e['kind'] not in RESULT_KINDS]  # nothing can be read at all
+    keys = draw(st.lists(st.sampled_from(_KEY_POOL), min_size=len(entries), max_size=len(entries), unique=True))
+    for e, k in zip(entries, keys):
+        e['key'] = k
     flags = dict(
         estimates=draw(st.sampled_from(range(8))) != 7,
         stderr=draw(st.booleans()),
@@ -1203,7 +1455,8 @@ def strat_compile(draw, tier):
     statistics = None
     if draw(st.booleans()):
         statistics = draw(st.lists(st.sampled_from(ALWAYS_STATISTICS + NULL_STATISTICS), max_size=8, unique=True))
-    return dict(models=models, keys=keys, flags=flags, statistics=statistics)
+    return dict(models=models, keys=keys, entries=entries, via_directory=via_directory, flags=flags,
+                statistics=statistics)
 
 
 @st.composite
@@ -1236,9 +1489,17 @@ def _render_model(spec):
 
 
 def _render_compile(spec):
-    ms = '; '.join(f"{k}: {dict(zip(m['names'], m['values']))} L={m['loglike']:.6g} N={m['sample_size']}"
-                   for k, m in zip(spec['keys'], spec['models']))
-    return f"compile_estimation_results({{{ms}}}, statistics={spec['statistics']}, flags={spec['flags']})"[:600]
+    parts = []
+    for e in compile_entries(spec):
+        if e['kind'] in RESULT_KINDS:
+            m = spec['models'][e['model']]
+            what = (f"{'bioResults' if e['kind'] == 'object' else 'pickle file'} "
+                    f"{dict(zip(m['names'], m['values']))} L={m['loglike']:.6g} N={m['sample_size']}")
+        else:
+            what = f"{e['kind']} file {e['file']!r}"
+        parts.append(f"{e['key']}: {what}")
+    call = 'compile_results_in_directory' if spec.get('via_directory') else 'compile_estimation_results'
+    return f"{call}({{{'; '.join(parts)}}}, statistics={spec['statistics']}, flags={spec['flags']})"[:700]
 
 
 SUBCHECKS = [
@@ -1253,9 +1514,13 @@ SUBCHECKS = [
              '(all / subset), HTML tables; non-trivial if (K >= 2 and bootstrap present) or singular Hessian'),
     SubCheck('compile', strat_compile, judge_compile, _render_compile,
              dict(quick=1000, thorough=30000),
-             'compile_estimation_results over 1-3 models x {statistics, estimates, std, t-test, formatted, '
-             'short names}: every cell holds the quantity its row label names; bioResults.likelihood_ratio_test; '
-             'non-trivial if >= 2 models'),
+             'compile_estimation_results / compile_results_in_directory over 1-7 entries (1-3 models given as '
+             'bioResults objects, names of pickle files, or a mix, in any order, a model possibly under two names; '
+             'entries naming a missing / empty / garbage / truncated / non-biogeme pickle file or a directory at '
+             'generated positions) x {statistics, estimates, std, t-test, formatted, short names}: every cell of '
+             'every column holds the quantity its row label names for the model of THAT column, and nothing for '
+             'an entry without readable results; bioResults.likelihood_ratio_test; '
+             'non-trivial if >= 2 entries of which >= 1 has results'),
     SubCheck('lrtest', strat_lrtest, judge_lrtest,
              lambda s: f"likelihood_ratio_test(({s['l1']}, {s['k1']}), ({s['l2']}, {s['k2']}), {s['alpha']}) "
                        f"and swapped",
